@@ -9,13 +9,16 @@ import (
 
 func init() {
 	register(&core.Rule{ID: "A1", Min: 40,
-		Doc: "Output-space budget of the x86 encoder: in every emitted template, each store through (RP)(RL)+d of width w, each add_text(s) and each native writer (i64toa/u64toa/f64toa/f32toa) is covered by spare bytes reserved by check_size(n)/check_size_r(R,d) since RL last advanced: budget = n after a check, minus k after ADDQ $k,RL, min at labels; a native writer needs budget >= its longest output for the operand width (int8 4, int16 6, int32 11, int64 20, uint8 3, uint16 5, uint32 10, uint64 20, float64 24, float32 15). Runtime-sized reservations (check_size_r) cover the stores that follow them; the quote loop hands the native dn = RC-RL.",
+		Doc: "Output-space budget of the x86 encoder: in every emitted template, each store through (RP)(RL)+d of width w, each add_text(s) and each native writer (i64toa/u64toa/f64toa/f32toa) is covered by spare bytes reserved by check_size(n)/check_size_r(R,d) since RL last advanced: budget = n after a check, minus k after ADDQ $k,RL, min at labels; a native writer needs budget >= its longest output for the operand width (int8 4, int16 6, int32 17, int64 20, uint8 3, uint16 5, uint32 16, uint64 20 - the 16-byte vector store of the 9..16 digit path counts, float64 24, float32 15). Runtime-sized reservations (check_size_r) cover the stores that follow them; the quote loop hands the native dn = RC-RL.",
 		Run: runA1})
 }
 
+// write footprint of the native formatters, not just the text length: for values of 9..16
+// digits i64toa/u64toa store a whole 16-byte vector (digits + zero padding) and report only the
+// digit count, so a 32-bit operand (up to 10 digits) needs 16 bytes (+1 for the sign).
 var nativeNeed = map[string]int64{
-	"_F_i64toa|MOVBQSX": 4, "_F_i64toa|MOVWQSX": 6, "_F_i64toa|MOVLQSX": 11, "_F_i64toa|MOVQ": 20,
-	"_F_u64toa|MOVBQZX": 3, "_F_u64toa|MOVWQZX": 5, "_F_u64toa|MOVLQZX": 10, "_F_u64toa|MOVQ": 20,
+	"_F_i64toa|MOVBQSX": 4, "_F_i64toa|MOVWQSX": 6, "_F_i64toa|MOVLQSX": 17, "_F_i64toa|MOVQ": 20,
+	"_F_u64toa|MOVBQZX": 3, "_F_u64toa|MOVWQZX": 5, "_F_u64toa|MOVLQZX": 16, "_F_u64toa|MOVQ": 20,
 	"_F_f64toa|": 24, "_F_f32toa|": 15,
 }
 
